@@ -1,4 +1,5 @@
 import decimal
+import math
 import io
 import json
 import re
@@ -514,6 +515,9 @@ class TypeTransformer:
 
         data = self._attempt_from(data)
         if isinstance(data, (int, float, Decimal)):
+            if not math.isfinite(data):
+                # inf / -inf never get below the watershed: the loop below would not end
+                raise ValueError(f'invalid timestamp: {repr(data)}')
             while abs(data) > self.MS_WATERSHED:
                 data /= 1000
             return t.utcfromtimestamp(data).replace(tzinfo=timezone.utc)
@@ -552,6 +556,8 @@ class TypeTransformer:
         except (TypeError, ValueError):
             pass
         else:
+            if not math.isfinite(num):
+                raise ValueError(f'invalid timestamp: {repr(data)}')
             while abs(num) > self.MS_WATERSHED:
                 num /= 1000
             return t.utcfromtimestamp(num).replace(tzinfo=timezone.utc)
